@@ -259,10 +259,16 @@ fn run_once<T: Sc, F: Factory<T>>(
                         ModelKind::Hand => p + 2,
                         ModelKind::Builder => sc.model.funcs.iter().map(|f| f.params.len()).sum::<usize>() + 2 * m,
                     };
+                    // Everything the library calls after the optimizer's last call is a candidate
+                    // fault position. Which of these calls *are* the statistics: the statistics
+                    // are the last thing fit_with_statistics does, so when it returned Ok they
+                    // ran to completion and are the LAST `sl` calls (a library that evaluates the
+                    // model once more between the optimizer and the statistics - say, to
+                    // precompute something for the result - may fail there without owing an Err)
                     if f.ok && tail.len() >= sl {
-                        stats_range = Some((st.ev_from + k, st.ev_from + k + sl));
+                        stats_range = Some((st.ev_from + k, st.ev_from + k + tail.len()));
                     }
-                    let in_stats = &tail[..sl.min(tail.len())];
+                    let in_stats = if f.ok { &tail[tail.len().saturating_sub(sl)..] } else { &tail[..sl.min(tail.len())] };
                     if failing(in_stats) {
                         rep.probe("model_failure_inside_statistics");
                         if f.ok {
